@@ -163,6 +163,28 @@ func verifyUnit(p *Program, u *Unit) (res *UnitResult) {
 	return
 }
 
+// assumeNamed adds the named lemmas (proved separately) / axioms (assumed, reported) to a state.
+func (r *UnitRun) assumeNamed(st *State, names []string) {
+	env := &SpecEnv{run: r, st: st, old: r.entry, bound: map[string]Val{}}
+	for _, n := range names {
+		found := false
+		for _, ax := range r.prog.Axioms {
+			if ax.Name != n {
+				continue
+			}
+			found = true
+			st.assume(r.specBool(env, ax.C, "lemma "+ax.Name))
+			if !ax.Lemma {
+				r.assumption("axiom " + ax.Name + ": " + ax.C.Text)
+			}
+			r.usedLemmas[n] = true
+		}
+		if !found {
+			panic(toolLimit("unknown lemma / axiom " + n))
+		}
+	}
+}
+
 // capturedAndOuterParams: the variables a closure unit sees - those it references plus the parameters (and receiver)
 // of its enclosing functions, which its contract may mention even when the body does not.
 func (r *UnitRun) capturedAndOuterParams(u *Unit) []*types.Var {
@@ -301,20 +323,41 @@ func (r *UnitRun) extraDeclText() string {
 	return b.String()
 }
 
-func (o *Obligation) smt(withModel bool) string {
+func (o *Obligation) smt(withModel bool) string { return o.smtMode(withModel, false) }
+
+// smtMode: groundOnly drops the index-quantified facts whose instance at the Skolem index was added (a weaker set of
+// hypotheses: unsat is still a proof; anything else falls back to the full query).
+func (o *Obligation) smtMode(withModel, groundOnly bool) string {
 	r := o.run
 	var b strings.Builder
 	b.WriteString("(set-option :produce-models true)\n(set-logic ALL)\n")
 	b.WriteString(r.prog.World.decls.dump())
 	b.WriteString(r.extraDeclText())
 	b.WriteString(r.decls.dump())
-	for _, f := range o.Facts {
+	gdecl, gextra, goal := "", []string(nil), o.Goal
+	var replaced []bool
+	if o.Kind != "canary" {
+		gdecl, gextra, goal, replaced = groundObligation(o.Facts, o.Goal)
+	}
+	if groundOnly && len(gextra) == 0 {
+		return ""
+	}
+	b.WriteString(gdecl)
+	for i, f := range o.Facts {
+		if groundOnly && replaced != nil && replaced[i] {
+			continue
+		}
+		b.WriteString("(assert ")
+		b.WriteString(f)
+		b.WriteString(")\n")
+	}
+	for _, f := range gextra {
 		b.WriteString("(assert ")
 		b.WriteString(f)
 		b.WriteString(")\n")
 	}
 	b.WriteString("(assert (not ")
-	b.WriteString(o.Goal)
+	b.WriteString(goal)
 	b.WriteString("))\n(check-sat)\n")
 	if withModel {
 		var terms []string
